@@ -222,6 +222,10 @@ fn gen_outcomes(r: &mut Rng) -> String {
 
 fn main() {
     let a = parse_args();
+    if a.extra.iter().any(|x| x == "--probe-blocked-worker") {
+        e2e::probe_blocked_worker();
+        return;
+    }
     quiet_panics();
     let mut out = Out::create(&a.out);
     // number of end-to-end scenarios: --e2e N, default by tier
